@@ -107,6 +107,7 @@ def common_dims(rng, idx=None):
         "frag": rng.choice(FRAGS),
         "empty_rate": rng.choice([0.0, 0.0, 0.2, 0.5]),
         "noise": list(rng.choice(NOISES)),
+        "early_reply": rng.random() < 0.25,
     }
 
 
@@ -123,6 +124,7 @@ def make_session(impl, dims, seed, connect=True, **kw):
     kw.setdefault("budget", 5000000)   # transport calls per API call: a logical bound against non-termination
     s = session_mod.Session(impl, sim=sim, rng=rng, frag=dims.get("frag", "whole"), empty_rate=dims.get("empty_rate", 0.0), **kw)
     s.dims = dims
+    sim.sync_plan.early_reply = bool(dims.get("early_reply", False))
     if connect:
         out = s.call("connect")
         if not out.ok or out.value is not True:
